@@ -111,5 +111,73 @@ Proof.
   - intros [cols [Hm Hc]]. exists (MGran cols). auto.
 Qed.
 
-Lemma solve_power_single_query ms : has_aggr ms = true -> solve_power_trace ms = [FAggr (merged_spec ms) None].
-Proof. intros H. unfold solve_power_trace. rewrite H. reflexivity. Qed.
+(* power analysis: without metrics that read the data themselves, exactly one ungrouped aggregate query *)
+Lemma power_calls_none ps i : (forall p, In p ps -> p <> PwPlain) -> power_calls i ps = [].
+Proof.
+  revert i. induction ps as [|p t IH]; intros i H; [reflexivity|]. cbn [power_calls].
+  destruct p; try (apply IH; intros q Hq; apply H; right; exact Hq).
+  exfalso. apply (H PwPlain); [left; reflexivity | reflexivity].
+Qed.
+Lemma solve_power_single_query ps : (forall p, In p ps -> p <> PwPlain) -> has_power_aggr ps = true ->
+  solve_power_trace ps = [FAggr (power_merged_spec ps) None].
+Proof. intros Hn H. unfold solve_power_trace. rewrite H, (power_calls_none ps 0 Hn). reflexivity. Qed.
+(* in general: at most one aggregate query, first, ungrouped; every other fetch is a metric reading the data itself *)
+Lemma power_calls_plain ps i f : In f (power_calls i ps) -> exists j, f = FPlain j (0, 0)%Z /\ nth_error ps (j - i) = Some PwPlain /\ i <= j.
+Proof.
+  revert i. induction ps as [|p t IH]; intros i H; [destruct H|]. cbn [power_calls] in H.
+  assert (R : In f (power_calls (S i) t) -> exists j, f = FPlain j (0, 0)%Z /\ nth_error (p :: t) (j - i) = Some PwPlain /\ i <= j).
+  { intros H'. destruct (IH _ H') as [j [E [N L]]]. exists j. split; [exact E|]. split; [|lia].
+    replace (j - i) with (S (j - S i)) by lia. exact N. }
+  destruct p; try (apply R; exact H).
+  destruct H as [<-|H]; [|apply R; exact H].
+  exists i. rewrite Nat.sub_diag. split; [reflexivity|]. split; [reflexivity | lia].
+Qed.
+Lemma solve_power_trace_shape ps : exists calls, (forall f, In f calls -> exists j, f = FPlain j (0, 0)%Z /\ nth_error ps j = Some PwPlain) /\ solve_power_trace ps = (if has_power_aggr ps then [FAggr (power_merged_spec ps) None] else []) ++ calls.
+Proof.
+  exists (power_calls 0 ps). split; [|reflexivity]. intros f H. destruct (power_calls_plain ps 0 f H) as [j [E [N _]]].
+  exists j. rewrite Nat.sub_0_r in N. auto.
+Qed.
+(* the result has one entry per metric with a power analysis, in metric order *)
+Lemma power_entries_spec ps i j : In j (power_entries i ps) <-> (i <= j /\ exists p, nth_error ps (j - i) = Some p /\ p <> PwNone).
+Proof.
+  revert i. induction ps as [|p t IH]; intros i; cbn [power_entries].
+  - split; [intros []|]. intros [_ [p [H _]]]. destruct (j - i); discriminate H.
+  - assert (S1 : i <= j /\ (exists q, nth_error (p :: t) (j - i) = Some q /\ q <> PwNone) <->
+                 (j = i /\ p <> PwNone) \/ (S i <= j /\ exists q, nth_error t (j - S i) = Some q /\ q <> PwNone)).
+    { split.
+      - intros [L [q [N Q]]]. destruct (Nat.eq_dec j i) as [->|Ne].
+        + left. rewrite Nat.sub_diag in N. cbn in N. injection N as ->. auto.
+        + right. assert (L' : S i <= j) by lia.
+          split; [exact L'|]. exists q. split; [|exact Q].
+          replace (j - i) with (S (j - S i)) in N by lia. exact N.
+      - intros [[-> Q]|[L [q [N Q]]]].
+        + split; [lia|]. exists p. rewrite Nat.sub_diag. auto.
+        + split; [lia|]. exists q. split; [|exact Q].
+          replace (j - i) with (S (j - S i)) by lia. exact N. }
+    rewrite S1. destruct p.
+    + cbn [In]. rewrite IH. split.
+      * intros [<-|H]; [left; split; [reflexivity | discriminate] | right; exact H].
+      * intros [[-> _]|H]; [left; reflexivity | right; exact H].
+    + cbn [In]. rewrite IH. split.
+      * intros [<-|H]; [left; split; [reflexivity | discriminate] | right; exact H].
+      * intros [[-> _]|H]; [left; reflexivity | right; exact H].
+    + rewrite IH. split; [intros H; right; exact H|]. intros [[_ Q]|H]; [exfalso; apply Q; reflexivity | exact H].
+Qed.
+Lemma power_entries_spec0 ps j : In j (power_entries 0 ps) <-> exists p, nth_error ps j = Some p /\ p <> PwNone.
+Proof.
+  rewrite (power_entries_spec ps 0 j), Nat.sub_0_r. split; [intros [_ H]; exact H | intros H; split; [apply Nat.le_0_l | exact H]].
+Qed.
+Lemma power_entries_increasing ps i : forall a b l1 l2, power_entries i ps = l1 ++ a :: b :: l2 -> a < b.
+Proof.
+  assert (G : forall ps i j, In j (power_entries i ps) -> i <= j).
+  { intros ps0 i0 j H. apply power_entries_spec in H. apply H. }
+  revert i. induction ps as [|p t IH]; intros i a b l1 l2 E; cbn [power_entries] in E.
+  - destruct l1; discriminate E.
+  - assert (R : forall l1, power_entries (S i) t = l1 ++ a :: b :: l2 -> a < b) by (intros l1'; apply IH).
+    assert (C : i :: power_entries (S i) t = l1 ++ a :: b :: l2 -> a < b).
+    { intros E'. destruct l1 as [|x l1]; cbn [app] in E'.
+      - injection E' as <- E'. apply (G t (S i) b). rewrite E'. left. reflexivity.
+      - injection E' as _ E'. apply (R l1 E'). }
+    destruct p; [apply C; exact E | apply C; exact E | apply (R l1 E)].
+Qed.
+
